@@ -506,7 +506,8 @@ def stock_job(path):
         if ss is None:
             out['skip'] = 'not loaded'
             return out
-        extra = set(m for m, v in ss.find_models('pflow').items() if v.n > 0) - PF_MODELS
+        extra = set(m for m, v in ss.find_models('pflow').items()
+                    if v.n > 0 and (v.algebs or v.algebs_ext or v.states or v.states_ext)) - PF_MODELS
         if extra:
             out['skip'] = 'other power-flow models: %s' % sorted(extra)
             return out
